@@ -60,7 +60,10 @@ FIRST = {'C03-s1', 'C04-s1', 'C05-s1', 'C05-s2', 'C13-s1', 'C08-s2', 'C09-s1', '
          'C20-w1', 'C03-w2', 'C06-w2', 'C10-w1', 'C11-w1', 'C11-w2', 'C13-w2',
          'C01-x1', 'C02-x1', 'C03-x2', 'C04-x1', 'C04-x2', 'C06-x1', 'C07-x1', 'C07-x2', 'C08-x1', 'C08-x2', 'C10-x2',
          'C11-x1', 'C11-x2', 'C12-x2', 'C13-x2', 'C14-x2', 'C16-x1', 'C16-x2', 'C17-x2', 'C19-x2', 'C20-x1',
-         'C06-x2', 'C09-x2'}
+         'C06-x2', 'C09-x2',
+         'C03-y1', 'C04-y1', 'C04-y2', 'C08-y2', 'C09-y1', 'C09-y2', 'C10-y1', 'C10-y2', 'C11-y1', 'C11-y2', 'C12-y1',
+         'C13-y1', 'C13-y2', 'C14-y1', 'C15-y2', 'C18-y1', 'C18-y2', 'C19-y1', 'C19-y2', 'C03-y2', 'C06-y2', 'C12-y2',
+         'C17-y2'}
 n = c = 0
 for d in sorted(glob.glob(os.path.join(ROOT, 'seeded', '*'))):
     meta = json.load(open(os.path.join(d, 'meta.json')))
